@@ -3,6 +3,7 @@ package checks
 import (
 	"fmt"
 	"sort"
+	"strings"
 	"time"
 
 	"github.com/remieven/ysgo/variable"
@@ -81,7 +82,7 @@ func runC11(ctx *report.Ctx) {
 	for _, nn := range nodeCounts {
 		nn := nn
 		names := []string{"N0", "N1", "N2"}[:nn]
-		probeNames := append(append([]string{}, names...), "nowhere")
+		probeNames := append(append([]string{}, names...), "nowhere", "n0") // "n0": not a node, though it reads like one
 		// body shapes of a node; t is a target chosen separately
 		nShapes := 8
 		if nn == 3 && ctx.Quick() {
@@ -108,8 +109,9 @@ func runC11(ctx *report.Ctx) {
 				case 5:
 					body = append(body, yc.If(&yc.Clause{Cond: yc.ECallOf("visited", yc.EString(target())), Body: []*yc.Stmt{yc.Jump(target())}},
 						&yc.Clause{Body: []*yc.Stmt{statusLine(names), yc.Jump(target())}}))
-				case 6: // a jump that fails (unknown node), then a status line, then a real jump
-					body = append(body, yc.JumpE(yc.EString("nowhere")), statusLine(names), yc.Jump(target()))
+				case 6: // a jump that fails (unknown node, or the title of a node in another case), then a status line, then a real jump
+					bad := []string{"nowhere", strings.ToLower(names[i])}[c.Choose(2, "unknown-target")]
+					body = append(body, yc.JumpE(yc.EString(bad)), statusLine(probeNames), yc.Jump(target()))
 				case 7: // jump out of an if inside an option body
 					body = append(body, yc.Options(&yc.Option{Line: yc.TextLine("deep"), Body: []*yc.Stmt{
 						yc.If(&yc.Clause{Cond: yc.EBoolean(true), Body: []*yc.Stmt{yc.Jump(target())}}), statusLine(names)}}), statusLine(names))
